@@ -14,23 +14,24 @@ Lemma cname_k_ne sd p k : cname_k sd p k <> p.
 Proof. destruct sd; unfold cname_k, side_num; lia. Qed.
 Lemma cname_k_inj sd1 sd2 p q k1 k2 : (k1 < 4)%N -> (k2 < 4)%N -> cname_k sd1 p k1 = cname_k sd2 q k2 -> sd1 = sd2 /\ p = q /\ k1 = k2.
 Proof. destruct sd1, sd2; unfold cname_k, side_num; intros H1 H2 E; repeat split; try reflexivity; lia. Qed.
-Lemma free_slot_is m sd p : forall fuel k, exists k', free_slot m sd p fuel k = cname_k sd p k'.
-Proof. induction fuel as [|f IH]; intro k; cbn [free_slot]; [eexists; reflexivity|]. destruct (m (cname_k sd p k)); [apply IH | eexists; reflexivity]. Qed.
-Lemma cslot_is m sd p : exists k, cslot m sd p = cname_k sd p k.
+Lemma free_slot_is m m' sd p : forall fuel k, exists k', free_slot m m' sd p fuel k = cname_k sd p k'.
+Proof. induction fuel as [|f IH]; intro k; cbn [free_slot]; [eexists; reflexivity|]. destruct (m (cname_k sd p k)), (m' (cname_k sd p k)); try apply IH. eexists; reflexivity. Qed.
+Lemma cslot_is m m' sd p : exists k, cslot m m' sd p = cname_k sd p k.
 Proof. apply free_slot_is. Qed.
-Lemma cslot_ne m sd p : cslot m sd p <> p.
-Proof. destruct (cslot_is m sd p) as [k ->]. apply cname_k_ne. Qed.
-(* the chosen name is unused whenever one of the names tried is *)
-Lemma free_slot_unused m sd p : forall fuel k, (exists j, (j <= N.of_nat fuel)%N /\ m (cname_k sd p (k + j)) = None) ->
-  m (free_slot m sd p fuel k) = None.
+Lemma cslot_ne m m' sd p : cslot m m' sd p <> p.
+Proof. destruct (cslot_is m m' sd p) as [k ->]. apply cname_k_ne. Qed.
+(* the chosen name is unused ON BOTH SIDES whenever one of the names tried is *)
+Lemma free_slot_unused m m' sd p : forall fuel k, (exists j, (j <= N.of_nat fuel)%N /\ m (cname_k sd p (k + j)) = None /\ m' (cname_k sd p (k + j)) = None) ->
+  m (free_slot m m' sd p fuel k) = None /\ m' (free_slot m m' sd p fuel k) = None.
 Proof.
-  induction fuel as [|f IH]; intros k (j & Hj & Hm); cbn [free_slot].
-  - assert (j = 0%N) by lia. subst. rewrite N.add_0_r in Hm. exact Hm.
-  - destruct (m (cname_k sd p k)) eqn:E; [|exact E]. apply IH.
-    destruct (N.eq_dec j 0) as [->|Hne]; [rewrite N.add_0_r in Hm; congruence|].
-    exists (j - 1)%N. split; [lia|]. replace (k + 1 + (j - 1))%N with (k + j)%N by lia. exact Hm.
+  induction fuel as [|f IH]; intros k (j & Hj & Hm & Hm'); cbn [free_slot].
+  - assert (j = 0%N) by lia. subst. rewrite N.add_0_r in Hm, Hm'. split; assumption.
+  - destruct (m (cname_k sd p k)) eqn:E, (m' (cname_k sd p k)) eqn:E'; try (split; assumption);
+      (apply IH; destruct (N.eq_dec j 0) as [->|Hne]; [rewrite N.add_0_r in Hm, Hm'; congruence|];
+       exists (j - 1)%N; split; [lia|]; replace (k + 1 + (j - 1))%N with (k + j)%N by lia; split; assumption).
 Qed.
-Lemma cslot_unused m sd p : (exists j, (j <= 3)%N /\ m (cname_k sd p j) = None) -> m (cslot m sd p) = None.
+Lemma cslot_unused m m' sd p : (exists j, (j <= 3)%N /\ m (cname_k sd p j) = None /\ m' (cname_k sd p j) = None) ->
+  m (cslot m m' sd p) = None /\ m' (cslot m m' sd p) = None.
 Proof. intros (j & Hj & Hm). unfold cslot. apply free_slot_unused. exists j. split; [exact Hj | exact Hm]. Qed.
 Global Opaque cname_k cslot.
 
@@ -39,8 +40,8 @@ Definition is_cname (p q : N) : Prop := exists sd k, q = cname_k sd p k.
 Definition touches (a : act) (p q : N) : Prop :=
   q = p \/ (a = RenameConflict /\ is_cname p q).
 
-Lemma cslot_is_cname m sd p : is_cname p (cslot m sd p).
-Proof. destruct (cslot_is m sd p) as [k E]. exists sd, k. exact E. Qed.
+Lemma cslot_is_cname m m' sd p : is_cname p (cslot m m' sd p).
+Proof. destruct (cslot_is m m' sd p) as [k E]. exists sd, k. exact E. Qed.
 
 Lemma exec_frame now w p a q : ~ touches a p q -> at_ (exec now w p a) q = at_ w q.
 Proof.
@@ -50,8 +51,8 @@ Proof.
   - destruct (w_src w p); cbn; rewrite ?upd_other by assumption; reflexivity.
   - cbn. rewrite ?upd_other by assumption. reflexivity.
   - cbn. rewrite ?upd_other by assumption. reflexivity.
-  - assert (q <> cslot (w_src w) Source p) by (intro X; apply Hn; right; split; [reflexivity | rewrite X; apply cslot_is_cname]).
-    assert (q <> cslot (w_dst w) Dest p) by (intro X; apply Hn; right; split; [reflexivity | rewrite X; apply cslot_is_cname]).
+  - assert (q <> cslot (w_src w) (w_dst w) Source p) by (intro X; apply Hn; right; split; [reflexivity | rewrite X; apply cslot_is_cname]).
+    assert (q <> cslot (w_dst w) (w_src w) Dest p) by (intro X; apply Hn; right; split; [reflexivity | rewrite X; apply cslot_is_cname]).
     destruct (w_src w p), (w_dst w p); cbn; rewrite ?upd_other by assumption; reflexivity.
 Qed.
 
@@ -82,7 +83,7 @@ Proof.
   - cbn. rewrite ?upd_same, ?E2, ?E3, ?E4. reflexivity.
   - cbn. rewrite ?upd_same, ?E1, ?E3, ?E4. reflexivity.
   - destruct (w_src w2 p) eqn:Es, (w_dst w2 p) eqn:Ed; cbn; rewrite ?E1, ?E2, ?E3, ?E4, ?Es, ?Ed; try reflexivity.
-    rewrite !(upd_other _ (cslot _ _ p)) by (apply not_eq_sym; apply cslot_ne). rewrite !upd_same. reflexivity.
+    rewrite !(upd_other _ (cslot _ _ _ p)) by (apply not_eq_sym; apply cslot_ne). rewrite !upd_same. reflexivity.
 Qed.
 
 Lemma fold_at st now w0 : forall U acc p,
@@ -235,8 +236,8 @@ Proof.
   - intro Hd. unfold record_path. cbn. rewrite upd_same, Hd. cbn. rewrite upd_same, Hd. reflexivity.
   - intro Hs. unfold record_path. cbn. rewrite upd_same, Hs. cbn. rewrite upd_same, Hs. reflexivity.
   - intros [Hs Hd]. destruct (w_src w p) as [s|] eqn:Es; [|congruence]. destruct (w_dst w p) as [d|] eqn:Ed; [|congruence].
-    unfold record_path. cbn. rewrite !(upd_other _ (cslot _ _ p)) by (apply not_eq_sym; apply cslot_ne). rewrite !upd_same. cbn.
-    rewrite !(upd_other _ (cslot _ _ p)) by (apply not_eq_sym; apply cslot_ne). rewrite !upd_same. reflexivity.
+    unfold record_path. cbn. rewrite !(upd_other _ (cslot _ _ _ p)) by (apply not_eq_sym; apply cslot_ne). rewrite !upd_same. cbn.
+    rewrite !(upd_other _ (cslot _ _ _ p)) by (apply not_eq_sym; apply cslot_ne). rewrite !upd_same. reflexivity.
 Qed.
 
 (* what the classifier and resolver decide at p, given truthful rows: afterwards the sides agree at p *)
@@ -421,7 +422,7 @@ Proof.
     + (* RenameConflict: kept under the conflict name *)
       right. left. pose proof (action_of_ok st w p RenameConflict) as Hok. unfold action_of in Hok. rewrite Ec in Hok. specialize (Hok Ea).
       destruct Hok as [_ Hd]. destruct (w_dst w p) as [d|] eqn:Ed; [|congruence].
-      destruct (cslot_is (w_src w) Source p) as [k Ek]. exists k. destruct (record_path_files (exec now w p RenameConflict) p (cname_k Source p k)) as [A _]. rewrite A. cbn. rewrite Hs, Ed. cbn. rewrite Ek. apply upd_same.
+      destruct (cslot_is (w_src w) (w_dst w) Source p) as [k Ek]. exists k. destruct (record_path_files (exec now w p RenameConflict) p (cname_k Source p k)) as [A _]. rewrite A. cbn. rewrite Hs, Ed. cbn. rewrite Ek. apply upd_same.
   - left. destruct (record_path_files w p p) as [A _]. rewrite A. exact Hs.
 Qed.
 
@@ -464,16 +465,16 @@ Proof.
     + (* RenameConflict: kept under the conflict name *)
       right. left. pose proof (action_of_ok st w p RenameConflict) as Hok. unfold action_of in Hok. rewrite Ec in Hok. specialize (Hok Ea).
       destruct Hok as [Hs _]. destruct (w_src w p) as [s|] eqn:Es; [|congruence].
-      destruct (cslot_is (w_dst w) Dest p) as [k Ek]. exists k. destruct (record_path_files (exec now w p RenameConflict) p (cname_k Dest p k)) as [_ B]. rewrite B. cbn. rewrite Es, Hd. cbn. rewrite Ek. apply upd_same.
+      destruct (cslot_is (w_dst w) (w_src w) Dest p) as [k Ek]. exists k. destruct (record_path_files (exec now w p RenameConflict) p (cname_k Dest p k)) as [_ B]. rewrite B. cbn. rewrite Es, Hd. cbn. rewrite Ek. apply upd_same.
   - left. destruct (record_path_files w p p) as [_ B]. rewrite B. exact Hd.
 Qed.
 
 (* no action at p destroys a file at ANOTHER path -- in particular an earlier conflict copy: the rename takes a name that is
    not in use (as long as one of the names it tries is free) *)
-Definition slot_free (m : fmap fent) (sd : side) (p : N) : Prop := exists j, (j <= 3)%N /\ m (cname_k sd p j) = None.
+Definition slot_free (m m' : fmap fent) (sd : side) (p : N) : Prop := exists j, (j <= 3)%N /\ m (cname_k sd p j) = None /\ m' (cname_k sd p j) = None.
 
 Theorem exec_keeps_other_paths now w p a q :
-  q <> p -> slot_free (w_src w) Source p -> slot_free (w_dst w) Dest p ->
+  q <> p -> slot_free (w_src w) (w_dst w) Source p -> slot_free (w_dst w) (w_src w) Dest p ->
   (forall v, w_src w q = Some v -> w_src (exec now w p a) q = Some v) /\
   (forall v, w_dst w q = Some v -> w_dst (exec now w p a) q = Some v).
 Proof.
@@ -484,9 +485,9 @@ Proof.
   - cbn. split; intros v Hv; rewrite ?upd_other by exact Hq; exact Hv.
   - destruct (w_src w p) as [s|], (w_dst w p) as [d|]; cbn; try (split; intros v Hv; exact Hv).
     split; intros v Hv.
-    + assert (q <> cslot (w_src w) Source p) by (intro X; rewrite X in Hv; rewrite (cslot_unused _ _ _ Fs) in Hv; discriminate).
+    + assert (q <> cslot (w_src w) (w_dst w) Source p) by (intro X; rewrite X in Hv; rewrite (proj1 (cslot_unused _ _ _ _ Fs)) in Hv; discriminate).
       rewrite !upd_other by assumption. exact Hv.
-    + assert (q <> cslot (w_dst w) Dest p) by (intro X; rewrite X in Hv; rewrite (cslot_unused _ _ _ Fd) in Hv; discriminate).
+    + assert (q <> cslot (w_dst w) (w_src w) Dest p) by (intro X; rewrite X in Hv; rewrite (proj1 (cslot_unused _ _ _ _ Fd)) in Hv; discriminate).
       rewrite !upd_other by assumption. exact Hv.
 Qed.
 
